@@ -1017,9 +1017,9 @@ def build_run(tier, seed):
               "re-wrap, LF<->CRLF, final newline} x engines {numpy, normal} x channels {string, file}",
               "compositions of <= 3 transformations; every insertion site of the small bases, sampled sites elsewhere")
     rng = random.Random(seed * 7919 + 17)
-    n_gen = 24 if quick else 600
-    n_full = 8 if quick else 200           # generated bases swept at every site
-    n_rand_gen = 20 if quick else 90
+    n_gen = 24 if quick else 420
+    n_full = 8 if quick else 140           # generated bases swept at every site
+    n_rand_gen = 20 if quick else 80
     n_rand_cor = 4 if quick else 80
     nproc = min(os.cpu_count() or 1, 4 if quick else 12)
     budget = 52 if quick else 14 * 60
@@ -1093,7 +1093,8 @@ def build_run(tier, seed):
                      "field gaps are changed only on lines NAME[b].UNIT b+ VALUE [b]:[b] DESCR with exactly one ':' and no '..'; "
                      "the unit-value gap is not changed after an all-digit unit (lasio documents '1000 psi' as a unit); "
                      "TAB/COMMA boundaries keep exactly one delimiter, padding is blanks only; lines with quotes are not re-delimited; "
-                     "re-wrapping never joins two depth steps on one line; corpus files with NUL bytes (UTF-16) or lone CR are skipped. "
+                     "re-wrapping never joins two depth steps on one line; corpus files with NUL bytes (UTF-16) or lone CR are skipped; "
+                     "generated files always end with their single ~A section (inner data sections occur only in the corpus). "
                      "Failing compositions are reduced (sub-compositions, then narrower scopes) before they are classified, "
                      "so klass and input describe the smallest failing transformation found.")
     return run
